@@ -64,12 +64,14 @@ pub struct Case {
     pub builder: u8,
     /// any single fault instead: (index of the call in the fault-free trace, its kind, what happens)
     pub any_fault: Option<(u64, Kind, Action)>,
+    /// permission bits the application gave a by-path source before the call (0 = as created, 0600)
+    pub source_mode: u32,
 }
 
 impl Case {
     fn to_json(&self) -> Value {
         json!({"cell": self.cell.to_json(), "planted": size_code(self.planted), "maintain": self.maintain,
-               "fault": self.fault.map(|f| json!([f.0, f.1])), "builder": self.builder,
+               "fault": self.fault.map(|f| json!([f.0, f.1])), "builder": self.builder, "source_mode": self.source_mode,
                "any_fault": self.any_fault.map(|(k, kind, a)| json!([k, format!("{:?}", kind), crate::props::c18::action_json(&a)]))})
     }
     fn from_json(v: &Value) -> Case {
@@ -79,6 +81,7 @@ impl Case {
             maintain: v["maintain"].as_bool().unwrap(),
             fault: v["fault"].as_array().map(|a| (a[0].as_i64().unwrap(), a[1].as_i64().unwrap() as i32)),
             builder: v["builder"].as_u64().unwrap_or(0) as u8,
+            source_mode: v["source_mode"].as_u64().unwrap_or(0) as u32,
             // (the kind is re-derived from the fault-free trace on replay)
             any_fault: v["any_fault"].as_array().map(|a| (a[0].as_u64().unwrap(), Kind::Other, crate::props::c18::action_from(&a[2]))),
         }
@@ -119,7 +122,9 @@ fn run_case(case: &Case) -> CellRun {
         }
     });
     crate::ops::BUILDER_STYLE.with(|b| b.set(case.builder));
+    crate::ops::SOURCE_MODE.with(|m| m.set(case.source_mode));
     let run = run_cell(&case.cell);
+    crate::ops::SOURCE_MODE.with(|m| m.set(0));
     crate::ops::BUILDER_STYLE.with(|b| b.set(0));
     PLANTED_SIZE.with(|s| s.set(Size::Five));
     FORCE_MAINTENANCE.with(|f| f.set(false));
@@ -298,7 +303,16 @@ fn base_cases() -> Vec<Case> {
                             fault: None,
                             builder: 0,
                             any_fault: None,
+                            source_mode: 0,
                         });
+                        // a by-path source the application has already made read-only (or otherwise re-moded)
+                        if auto_sync && !maintain && matches!(op, MOp::Set | MOp::Put) {
+                            for mode in [0o444u32, 0o400, 0o644, 0o640] {
+                                let mut c = out.last().unwrap().clone();
+                                c.source_mode = mode;
+                                out.push(c);
+                            }
+                        }
                         // auto-sync left at its default, with the builder obtained the other two ways
                         if auto_sync && !maintain && size == Size::One {
                             for builder in [1u8, 2] {
@@ -369,7 +383,8 @@ pub fn run(_tier: Tier, shard: Shard, rep: &mut Report) {
         get_or_update misses, Replace on a primary and on a secondary hit, Promote from plain and sharded read-only levels, key living \
         in the secondary shard) x writer {plain, sharded} x value size {0 B, 1 B, 3 x 8 KiB} x maintenance {fires, does not} x \
         auto_sync {on, off as a control of the monitor}, the builder obtained by CacheBuilder::new(), by Default::default() and by \
-        re-using a builder after take() (auto-sync never mentioned: it must default to on); per published inode the trace must show last content event < successful \
+        re-using a builder after take() (auto-sync never mentioned: it must default to on), by-path sources also handed over with \
+        mode 0444, 0400, 0644 and 0640; per published inode the trace must show last content event < successful \
         fsync < chmod stripping write bits <= publication, and no content/mode event afterwards. Then, for every auto_sync cell, each \
         fsync fails in turn with EIO and ENOSPC: the call must fail (or panic with the documented message for by-path set/put) and \
         that inode must never be published. Then every other call of each auto_sync cell fails in turn in every plausible way (short \
